@@ -111,6 +111,34 @@ def findSub [BEq α] (pat : List α) : List α → Option Nat
 
 def containsSub [BEq α] (pat l : List α) : Bool := (findSub pat l).isSome
 
+/-- `core::str::from_utf8(..).is_ok()` — transcription of `run_utf8_validation`: shortest-form only,
+no surrogates, at most U+10FFFF. -/
+def isCont (b : UInt8) : Bool := 0x80 ≤ b && b ≤ 0xBF
+
+def utf8Valid : Bytes → Bool
+  | [] => true
+  | b0 :: rest =>
+    if b0 < 0x80 then utf8Valid rest
+    else if 0xC2 ≤ b0 && b0 ≤ 0xDF then
+      match rest with
+      | b1 :: r => isCont b1 && utf8Valid r
+      | _ => false
+    else if 0xE0 ≤ b0 && b0 ≤ 0xEF then
+      match rest with
+      | b1 :: b2 :: r =>
+        (if b0 == 0xE0 then 0xA0 ≤ b1 && b1 ≤ 0xBF
+         else if b0 == 0xED then 0x80 ≤ b1 && b1 ≤ 0x9F
+         else isCont b1) && isCont b2 && utf8Valid r
+      | _ => false
+    else if 0xF0 ≤ b0 && b0 ≤ 0xF4 then
+      match rest with
+      | b1 :: b2 :: b3 :: r =>
+        (if b0 == 0xF0 then 0x90 ≤ b1 && b1 ≤ 0xBF
+         else if b0 == 0xF4 then 0x80 ≤ b1 && b1 ≤ 0x8F
+         else isCont b1) && isCont b2 && isCont b3 && utf8Valid r
+      | _ => false
+    else false
+
 /-- a property of all 256 byte values, checked value by value -/
 theorem forall_u8 (P : UInt8 → Prop) (h : ∀ n, n < 256 → P (UInt8.ofNat n)) (x : UInt8) : P x := by
   have := h x.toNat x.toNat_lt
